@@ -13,6 +13,7 @@ import (
 	"strconv"
 	"strings"
 	"sync"
+	"syscall"
 	"time"
 )
 
@@ -32,6 +33,7 @@ type JobSpec struct {
 	Params     map[string]map[string]int64 `json:"params"`
 	FatalViol  bool                        `json:"fatal_is_violation"`
 	MaxPaths   int                         `json:"max_paths"`
+	MaxViol    int                         `json:"stop_after_violations"`
 	Trace      bool                        `json:"trace_mode"`
 	NoValidate bool                        `json:"no_validate"`
 	Kinds      []string                    `json:"kinds"` // violation kinds that belong to this property (empty: all)
@@ -241,6 +243,9 @@ func cmdCheck(args []string) int {
 			if j.spec.FatalViol {
 				a = append(a, "-fatal-is-violation")
 			}
+			if j.spec.MaxViol > 0 {
+				a = append(a, "-maxviol", strconv.Itoa(j.spec.MaxViol))
+			}
 			if j.spec.MaxPaths > 0 {
 				a = append(a, "-maxpaths", strconv.Itoa(j.spec.MaxPaths))
 			}
@@ -251,6 +256,8 @@ func cmdCheck(args []string) int {
 			defer cancel()
 			cmd := exec.CommandContext(ctx, self, a...)
 			cmd.Env = goEnv()
+			cmd.Cancel = func() error { return cmd.Process.Signal(syscall.SIGTERM) }
+			cmd.WaitDelay = 30 * time.Second
 			ts := time.Now()
 			out, err := cmd.CombinedOutput()
 			j.wall = time.Since(ts).Seconds()
